@@ -1874,9 +1874,7 @@ class GramStack(Stack):
             laters = deque()
             blockeds = []
             while self.txPkts:
-                again = self._serviceOneTxPkt(laters, blockeds)
-                if not again:
-                    break
+                self._serviceOneTxPkt(laters, blockeds)
             while laters:
                 self.txPkts.append(laters.popleft())
 
@@ -1890,7 +1888,7 @@ class GramStack(Stack):
             if self.txPkts:
                 self._serviceOneTxPkt(laters, blockeds)
             while laters:
-                self.txPkts.append(laters.popleft())
+                self.txPkts.appendleft(laters.pop())  # back to the front: keep queue order
 
     def transmit(self, pkt, ha=None):
         """
